@@ -236,6 +236,9 @@ import numpy as np  # noqa: E402
 from pyvc.spec import CONTRACTS  # noqa: E402
 
 
+REQUESTED: dict = {}
+
+
 def rand_instance(rng, max_items=7):
     from moptipyapps.binpacking2d.instance import Instance
     mode = rng.random()
@@ -243,6 +246,22 @@ def rand_instance(rng, max_items=7):
         edge = rng.choice([127, 32767])
         W = rng.randint(1, max(1, edge // 2 - 1))
         H = rng.randint(1, max(1, edge // 2 - 1))
+    elif mode < 0.22:     # bin side + item side crosses 127 / 32767 only for the *rotated* item (flat, wide items)
+        edge = 127 if rng.random() < 0.9 else 32767     # (the constructor's bound computation is slow for large, thin items)
+        W = rng.randint(edge // 2 + 1, (edge * 7) // 8)
+        H = rng.randint(edge // 2 + 1, (edge * 7) // 8)
+        items, total = [], 0
+        for _ in range(rng.randint(1, 3)):
+            w = rng.randint(min(W, H) // 2 + 1, min(W, H))
+            h = rng.randint(max(1, (edge - max(W, H) - 2) // 3), max(1, edge - max(W, H) - 2))
+            rep = rng.randint(1, 2)
+            total += rep
+            items.append([w, h, rep] if rng.random() < 0.7 else [h, w, rep])
+            if total >= max_items:
+                break
+        inst = Instance("t", W, H, items)
+        REQUESTED[id(inst)] = (W, H, [list(i) for i in items])
+        return inst
     else:
         W, H = rng.randint(1, 12), rng.randint(1, 12)
     mx, mn = max(W, H), min(W, H)
@@ -265,7 +284,9 @@ def rand_instance(rng, max_items=7):
         items.append([w, h, rep])
         if total >= max_items:
             break
-    return Instance("t", W, H, items)
+    inst = Instance("t", W, H, items)
+    REQUESTED[id(inst)] = (W, H, [list(i) for i in items])      # what the constructor was given (not what the object reports)
+    return inst
 
 
 def rand_signed_perm(rng, inst):
